@@ -6,7 +6,11 @@
 // (balances through the bound token contract, nonces, SetData/RemoveData with variable-length
 // prefix-related keys, SetCode 0-3 KB, Suicide, CreateAccount / re-creation), optionally
 // IntermediateRoot(true) (core/vmexecutor.go), and then commits exactly like
-// core/blockchain_add.go:saveStates: AccountDB.Commit(true) + TrieDB().Commit(root,false).
+// core/blockchain_add.go:saveStates: AccountDB.Commit(true) + TrieDB().Commit(root,false). In half
+// of the histories the two calls are separated: several state-committed roots are pending in the
+// shared trie node cache and are flushed in a generated order (older first, younger first,
+// interleaved with further state commits, some never) - what the chain insert and the fork
+// processor (no common lock, one NodeDatabase) and retries of failed flushes can produce.
 // recDB is the disk; it records every physical write (Put, Delete, each Batch.Write = one atomic
 // unit) and can make one write fail (error returned, nothing applied).
 //
@@ -55,13 +59,17 @@ import (
 
 func TestMain(m *testing.M) {
 	stats.SetRule("histories of 1-6 blocks (fresh AccountDB per block on one long-lived AccountDatabase over a recording disk; <=40 prefix-related " +
-		"addresses; optional fork parent, optional injected disk-write error followed by retry or abandon; one generated class makes a block >=150 KB so " +
-		"that its commit spans >=2 physical batches); every prefix of the physical writes of every commit attempt is checked. non-trivial = the history " +
-		"contains a crash prefix strictly inside a multi-batch commit, or deletes an account in one commit and re-creates it in a later one; " +
-		"distinct by hash of the whole generated history")
+		"addresses; optional fork parent; optional injected disk-write error followed by retry at once, retry later, or drop; one generated class makes a block >=150 KB so " +
+		"that its flush spans >=2 physical batches; in half of the histories state commits (AccountDB.Commit) stay pending in the shared node cache and the flushes " +
+		"(TrieDB().Commit) come in a generated order: older first, younger first, interleaved with further state commits, some never); every prefix of the physical writes of " +
+		"every flush attempt is checked. non-trivial = the history contains a crash prefix strictly inside a multi-batch flush, or deletes an account in one commit and " +
+		"re-creates it in a later one, or flushes an older root after a younger one that was state-committed later; distinct by hash of the whole generated history")
 	stats.Assume("crash model: a prefix of whole Put/Delete/Batch.Write operations (LevelDB batch atomicity and ordering trusted)")
-	stats.Assume("usage as in core: one AccountDB per block, IntermediateRoot(true) only at the end of a block (vmexecutor), Commit(true)+TrieDB().Commit(root,false) (saveStates); " +
-		"a commit whose disk write failed is either retried on the same state object (verifiedBlocks cache) or the block is dropped")
+	stats.Assume("usage as in core: one AccountDB per block, IntermediateRoot(true) only at the end of a block (vmexecutor), state commit = AccountDB.Commit(true), flush = TrieDB().Commit(root,false) " +
+		"(blockchain_add.go saveStates, fork_block.go saveState); 'a commit reported success for a root' = both calls returned nil for it. " +
+		"A flush whose disk write failed is retried (at once or after other blocks) by Commit(true) on the same cached state object + TrieDB().Commit, or never")
+	stats.Assume("flush orders: saveStates (under the chain lock) and the fork processor's saveState (own lock only, separate goroutine) share one NodeDatabase, so two state-committed roots can be pending " +
+		"and be flushed in either order; failed flushes add further pending roots. Histories with more than two never-failed pending roots are generated too and tagged sched:beyond_two_concurrent_callers")
 	stats.Assume("balances live in the storage of the token contract bound by AddERC20Binding in the first block (as the genesis builder does); nonces are only set to values >= 1; storage keys are 1-40 bytes; " +
 		"nil and zero-length answers are the same answer")
 	stats.Exhaustive("every prefix of the recorded physical write sequence of every commit attempt of each generated history (histories themselves are sampled)")
@@ -403,6 +411,8 @@ type blockSpec struct {
 	FailAt int // 0: none; k: the k-th physical write of the commit fails
 	Retry  bool
 	Replay bool // same operations and parent as the previous block, which was dropped after a write error
+	Defer  bool // state commit only; the root stays pending in the node cache
+	After  []flushSpec // flushes of pending roots issued after this block
 }
 
 func (o opSpec) render() string {
@@ -431,7 +441,7 @@ func short(b []byte) []byte {
 
 func (bs blockSpec) render(maxOps int) string {
 	var sb strings.Builder
-	fmt.Fprintf(&sb, "parent=%d big=%d ir=%v fail=%d retry=%v replay=%v ops[%d]:", bs.Parent, bs.Big, bs.EndIR, bs.FailAt, bs.Retry, bs.Replay, len(bs.Ops))
+	fmt.Fprintf(&sb, "parent=%d big=%d ir=%v fail=%d retry=%v replay=%v defer=%v after=%v ops[%d]:", bs.Parent, bs.Big, bs.EndIR, bs.FailAt, bs.Retry, bs.Replay, bs.Defer, bs.After, len(bs.Ops))
 	for i, o := range bs.Ops {
 		if maxOps > 0 && i >= maxOps {
 			sb.WriteString(" ...")
@@ -540,6 +550,19 @@ func bigOps(seed uint64, big int, slots, valLen int) []opSpec {
 
 type history struct {
 	Blocks []blockSpec
+	Tail   []flushSpec // flushes issued after the last block; what is still pending then is never flushed
+}
+
+func drawFlushes(t *rapid.T, max int) []flushSpec {
+	var out []flushSpec
+	for i, n := 0, rapid.IntRange(0, max).Draw(t, "nFlush"); i < n; i++ {
+		fs := flushSpec{Pick: rapid.SampledFrom([]int{0, 0, 1, 1, 1, 2, 3, 4}).Draw(t, "pick")}
+		if rapid.IntRange(0, 7).Draw(t, "flushFault") == 0 {
+			fs.FailAt = rapid.IntRange(1, 3).Draw(t, "flushFailAt")
+		}
+		out = append(out, fs)
+	}
+	return out
 }
 
 func drawHistory(t *rapid.T, forceBig int) history {
@@ -555,8 +578,15 @@ func drawHistory(t *rapid.T, forceBig int) history {
 			faultAt = bigAt
 		}
 	}
+	// schedule class: 0-4 = every block is flushed right after its state commit (single-threaded
+	// saveStates); otherwise some state commits stay pending and flushes come in a generated order
+	sched := rapid.IntRange(0, 9).Draw(t, "schedClass") >= 5
 	for b := 0; b < n; b++ {
 		bs := blockSpec{Parent: -1, EndIR: rapid.IntRange(0, 4).Draw(t, "endIR") > 0}
+		if sched {
+			bs.Defer = rapid.IntRange(0, 2).Draw(t, "defer") > 0
+			bs.After = drawFlushes(t, 2)
+		}
 		if b > 0 && rapid.IntRange(0, 4).Draw(t, "fork") == 0 {
 			bs.Parent = rapid.IntRange(0, 5).Draw(t, "parent")
 		}
@@ -593,6 +623,9 @@ func drawHistory(t *rapid.T, forceBig int) history {
 			b++
 		}
 	}
+	if sched {
+		h.Tail = drawFlushes(t, 4)
+	}
 	return h
 }
 
@@ -602,6 +635,7 @@ func (h history) fingerprint() string {
 		hs.Write([]byte(b.render(0)))
 		hs.Write([]byte{'|'})
 	}
+	fmt.Fprintf(hs, "tail=%v", h.Tail)
 	return hex.EncodeToString(hs.Sum(nil)[:12])
 }
 
@@ -621,30 +655,34 @@ type caseRun struct {
 	roots  []*rootRec
 	keys   map[common.Address]map[string]bool
 
+	pending      []*pendingRoot
+	durableOrder []*rootRec // in the order in which their flush reported success
+	img          map[string][]byte
+	logChecked   int
+	seq          int
+
 	// statistics of the case
 	commits, multiBatch, insidePrefixes, prefixes, maxBatches int
 	faultHit, retried, abandoned, recreated, sameRoot, forked   bool
-	refused, replayed                                           bool
-	lastDropped                                                 int
+	refused, replayed, deferred                                 bool
+	youngerFirst, olderAfterYounger, retriedLater               bool
+	lastDropped, laterFlushes, maxPending, maxUnfailedPending   int
+	neverFlushed                                                int
 	nodesWalked                                                 int
 }
 
-func (c *caseRun) durable() []*rootRec {
-	var out []*rootRec
-	for _, r := range c.roots {
-		if r.Durable {
-			out = append(out, r)
-		}
-	}
-	return out
-}
+func (c *caseRun) durable() []*rootRec { return c.durableOrder }
 
 func runHistory(t *rapid.T, h history) *caseRun {
-	c := &caseRun{t: t, rec: newRecDB(), keys: map[common.Address]map[string]bool{}, lastDropped: -5}
+	c := &caseRun{t: t, rec: newRecDB(), keys: map[common.Address]map[string]bool{}, lastDropped: -5, img: map[string][]byte{}}
 	c.adbase = account.NewDatabase(c.rec)
 	for bi, bs := range h.Blocks {
 		c.runBlock(bi, bs)
 	}
+	for _, fs := range h.Tail {
+		c.flushPick(fs)
+	}
+	c.neverFlushed = len(c.pending)
 	return c
 }
 
@@ -729,42 +767,15 @@ func (c *caseRun) runBlock(bi int, bs blockSpec) {
 	}
 	model := b.w // the model captured before the commit
 
-	attempt := func() (common.Hash, error) {
-		var root common.Hash
-		var err error
-		b.guard("AccountDB.Commit(true)", func() { root, err = st.Commit(true) })
-		if err != nil {
-			return root, fmt.Errorf("AccountDB.Commit: %w", err)
-		}
-		b.guard("TrieDB().Commit", func() { err = c.adbase.TrieDB().Commit(root, false) })
-		return root, err
-	}
-
-	// ---- first attempt (possibly with one injected write error)
-	base := c.rec.snapshot()
-	start := len(c.rec.log)
-	inj0 := c.rec.injected
-	c.rec.failIn = bs.FailAt
-	root, err := attempt()
-	c.rec.failIn = 0
-	injected := c.rec.injected > inj0
-	if err != nil && !injected {
+	// ---- state commit (AccountDB.Commit): nodes enter the shared trie node cache, nothing reaches disk
+	var root common.Hash
+	var err error
+	b.guard("AccountDB.Commit(true)", func() { root, err = st.Commit(true) })
+	if err != nil {
 		// The property promises nothing about a commit that reports failure on a healthy disk; the
-		// block is dropped (as the chain does) and the disk images it left behind are still checked.
-		msg := err.Error()
-		if len(msg) > 60 {
-			msg = msg[:60]
-		}
-		stats.Class("commit_refused_on_healthy_disk:" + msg)
-		c.refused = true
-		c.commits++
-		c.enumerate(bi, base, c.rec.log[start:], nil, false)
+		// block is dropped (as the chain does).
+		c.refusedClass("commit_refused_on_healthy_disk:", err)
 		return
-	}
-	if err == nil && injected {
-		// success was reported although a write returned an error: the report is what counts, the
-		// root is checked like any committed root
-		stats.Class("commit_reported_success_despite_write_error")
 	}
 	rr := &rootRec{Root: root, Model: model, Block: bi}
 	for _, o := range c.roots {
@@ -773,44 +784,167 @@ func (c *caseRun) runBlock(bi int, bs blockSpec) {
 		}
 	}
 	c.roots = append(c.roots, rr)
-	c.commits++
-	c.enumerate(bi, base, c.rec.log[start:], rr, err == nil)
-	if err == nil {
-		return
-	}
-	c.faultHit = true
-	if !bs.Retry {
-		c.abandoned = true
-		c.lastDropped = bi
-		return
-	}
-	// ---- retry on the same state object, as blockchain_add.go does with a cached verified block
-	c.retried = true
-	base = c.rec.snapshot()
-	start = len(c.rec.log)
-	root2, err := attempt()
-	if err != nil {
-		msg := err.Error()
-		if len(msg) > 60 {
-			msg = msg[:60]
+	c.seq++
+	p := &pendingRoot{rr: rr, st: st, seq: c.seq}
+	c.pending = append(c.pending, p)
+	c.notePending()
+
+	// ---- flush (TrieDB().Commit): immediately, as saveStates does single-threaded, or deferred
+	if !bs.Defer {
+		ok := c.flush(p, bs.FailAt)
+		if !ok && p.failed {
+			if bs.Retry {
+				// retry at once on the same state object (blockchain_add.go with a cached verified block)
+				c.retried = true
+				c.flush(p, 0)
+			} else {
+				c.abandoned = true
+				c.lastDropped = bi
+			}
 		}
-		stats.Class("retry_refused_on_healthy_disk:" + msg)
-		c.refused = true
-		c.commits++
-		c.enumerate(bi, base, c.rec.log[start:], nil, false)
-		return
+	} else {
+		c.deferred = true
 	}
-	if root2 != root { // not C03's business; the root that was reported committed is the one that counts
-		stats.Class("retry_produced_a_different_root")
-		rr = &rootRec{Root: root2, Model: model, Block: bi}
-		c.roots = append(c.roots, rr)
+	for _, fs := range bs.After {
+		c.flushPick(fs)
 	}
-	c.commits++
-	c.enumerate(bi, base, c.rec.log[start:], rr, true)
 }
 
-// enumerate materialises every prefix of the physical writes of one commit attempt.
-func (c *caseRun) enumerate(bi int, base map[string][]byte, writes []physWrite, cur *rootRec, success bool) {
+// pendingRoot: a root whose state commit succeeded and whose flush has not yet reported success.
+type pendingRoot struct {
+	rr        *rootRec
+	st        *account.AccountDB
+	seq       int  // order of the state commits
+	failed    bool // a flush of it returned an error (the chain would retry through the cached state)
+	overtaken bool // a younger root was flushed successfully while this one was pending
+}
+
+type flushSpec struct {
+	Pick   int // 0: oldest pending, 1: youngest pending, >= 2: (Pick-2) mod len
+	FailAt int
+}
+
+func (c *caseRun) refusedClass(prefix string, err error) {
+	msg := err.Error()
+	if len(msg) > 60 {
+		msg = msg[:60]
+	}
+	stats.Class(prefix + msg)
+	c.refused = true
+}
+
+// notePending tracks whether the schedule stays inside what two unsynchronised callers (chain
+// insert under the chain lock, fork processor under its own lock) plus retries of failed commits
+// can produce: at most two roots pending that never had a failed flush.
+func (c *caseRun) notePending() {
+	unfailed := 0
+	for _, q := range c.pending {
+		if !q.failed {
+			unfailed++
+		}
+	}
+	if unfailed > c.maxUnfailedPending {
+		c.maxUnfailedPending = unfailed
+	}
+	if len(c.pending) > c.maxPending {
+		c.maxPending = len(c.pending)
+	}
+}
+
+func (c *caseRun) flushPick(fs flushSpec) {
+	if len(c.pending) == 0 {
+		return
+	}
+	var p *pendingRoot
+	switch fs.Pick {
+	case 0:
+		p = c.pending[0]
+	case 1:
+		p = c.pending[len(c.pending)-1]
+	default:
+		p = c.pending[(fs.Pick-2)%len(c.pending)]
+	}
+	c.laterFlushes++
+	c.flush(p, fs.FailAt)
+}
+
+// flush runs the node's flush path for one pending root and checks every disk image it produced.
+// A root whose earlier flush failed is retried the way saveStates does it: AccountDB.Commit(true)
+// again on the cached state object, then TrieDB().Commit.
+func (c *caseRun) flush(p *pendingRoot, failAt int) bool {
+	t := c.t
+	guard := func(what string, f func()) {
+		defer func() {
+			if r := recover(); r != nil {
+				t.Fatalf("PANIC in %s: %v\n%s", what, r, debug.Stack())
+			}
+		}()
+		f()
+	}
+	rr := p.rr
+	var err error
+	if p.failed {
+		c.retriedLater = c.retriedLater || p.overtaken
+		var root2 common.Hash
+		guard("AccountDB.Commit(true) (retry)", func() { root2, err = p.st.Commit(true) })
+		if err != nil {
+			c.refusedClass("retry_refused_on_healthy_disk:", err)
+			c.enumerate(rr.Block, nil, false)
+			return false
+		}
+		if root2 != rr.Root { // not C03's business; the root that is reported committed is the one that counts
+			stats.Class("retry_produced_a_different_root")
+			rr = &rootRec{Root: root2, Model: rr.Model, Block: rr.Block}
+			c.roots = append(c.roots, rr)
+			p.rr = rr
+		}
+	}
+	inj0 := c.rec.injected
+	c.rec.failIn = failAt
+	guard("TrieDB().Commit", func() { err = c.adbase.TrieDB().Commit(rr.Root, false) })
+	c.rec.failIn = 0
+	injected := c.rec.injected > inj0
+	c.commits++
+	if err != nil {
+		if injected {
+			c.faultHit = true
+		} else {
+			c.refusedClass("flush_refused_on_healthy_disk:", err)
+		}
+		p.failed = true
+		c.enumerate(rr.Block, nil, false)
+		return false
+	}
+	if injected {
+		// success was reported although a write returned an error: the report is what counts, the
+		// root is checked like any committed root
+		stats.Class("commit_reported_success_despite_write_error")
+	}
+	// bookkeeping of the flush order
+	var rest []*pendingRoot
+	for _, q := range c.pending {
+		if q == p {
+			continue
+		}
+		if q.seq < p.seq {
+			q.overtaken = true
+			c.youngerFirst = true
+		}
+		rest = append(rest, q)
+	}
+	c.pending = rest
+	if p.overtaken {
+		c.olderAfterYounger = true
+	}
+	c.enumerate(rr.Block, rr, true)
+	return true
+}
+
+// enumerate materialises every prefix of the physical writes issued since the last enumeration
+// (= the writes of one flush attempt; a state commit writes nothing).
+func (c *caseRun) enumerate(bi int, cur *rootRec, success bool) {
+	writes := c.rec.log[c.logChecked:]
+	c.logChecked = len(c.rec.log)
 	n := len(writes)
 	nonEmpty := 0
 	for _, w := range writes {
@@ -824,20 +958,20 @@ func (c *caseRun) enumerate(bi int, base map[string][]byte, writes []physWrite, 
 	if nonEmpty > c.maxBatches {
 		c.maxBatches = nonEmpty
 	}
-	before := c.durable() // cur.Durable is still false here unless an equal root was durable already
-	img := base
+	before := append([]*rootRec{}, c.durableOrder...)
 	for k := 0; k <= n; k++ {
 		if k > 0 {
-			applyWrite(img, writes[k-1])
+			applyWrite(c.img, writes[k-1])
 		}
 		c.prefixes++
 		if k > 0 && k < n && nonEmpty >= 2 {
 			c.insidePrefixes++
 		}
-		if k == n && success && cur != nil {
+		if k == n && success && cur != nil && !cur.Durable {
 			cur.Durable = true
+			c.durableOrder = append(c.durableOrder, cur)
 		}
-		c.checkImage(fmt.Sprintf("block %d, disk image after %d of %d physical writes of the commit (success=%v)", bi, k, n, success), img, before, k == n && success, cur)
+		c.checkImage(fmt.Sprintf("flush of block %d, disk image after %d of %d physical writes (success reported=%v, %d other roots pending)", bi, k, n, success, len(c.pending)), c.img, before, k == n && success, cur)
 	}
 }
 
@@ -1163,9 +1297,18 @@ func (c *caseRun) record(h history) {
 	flag(c.sameRoot, "root_equal_to_an_earlier_root")
 	flag(c.forked, "fork_parent_not_latest")
 	flag(c.refused, "has_commit_refused_on_healthy_disk")
+	flag(c.deferred, "sched:has_deferred_flush")
+	flag(c.maxPending >= 2, "sched:two_or_more_roots_pending_at_once")
+	flag(c.maxPending >= 3, "sched:three_or_more_roots_pending_at_once")
+	flag(c.youngerFirst, "sched:younger_root_flushed_while_older_pending")
+	flag(c.olderAfterYounger, "sched:older_root_flushed_after_a_younger_one")
+	flag(c.retriedLater, "sched:failed_flush_retried_after_a_younger_root_was_flushed")
+	flag(c.neverFlushed > 0, "sched:some_root_never_flushed")
+	flag(c.deferred && c.maxUnfailedPending <= 2, "sched:producible_by_chain_insert+fork_processor+retries")
+	flag(c.maxUnfailedPending > 2, "sched:beyond_two_concurrent_callers")
 	flag(c.replayed, "dropped_block_executed_again_from_scratch")
 	nt := ""
-	if c.insidePrefixes > 0 || c.recreated {
+	if c.insidePrefixes > 0 || c.recreated || c.olderAfterYounger {
 		nt = h.fingerprint()
 	}
 	stats.Case(nt, classes...)
@@ -1174,6 +1317,7 @@ func (c *caseRun) record(h history) {
 	stats.Count("crash_prefixes_checked", int64(c.prefixes))
 	stats.Count("crash_prefixes_strictly_inside_multi_batch_commit", int64(c.insidePrefixes))
 	stats.Count("nodes_walked_raw", int64(c.nodesWalked))
+	stats.Count("flushes_of_a_root_that_waited_behind_other_state_commits", int64(c.laterFlushes))
 	var blocks []string
 	for _, b := range h.Blocks {
 		blocks = append(blocks, b.render(8))
